@@ -398,3 +398,16 @@ class Repo:
 
     def all_functions(self):
         return list(self.functions.values())
+
+    @property
+    def property_names(self) -> set[str]:
+        """Names of all attributes that are properties (have a getter) in some class."""
+        if not hasattr(self, "_property_names"):
+            names = set()
+            for fi in self.functions.values():
+                if fi.cls is not None and not isinstance(fi.node, ast.Lambda):
+                    decs = fi.decorators()
+                    if "property" in decs or any(d.endswith("cached_property") for d in decs):
+                        names.add(fi.name)
+            self._property_names = names
+        return self._property_names
